@@ -1145,6 +1145,7 @@ func scenFilter(out *scenOut, r *rng, thorough bool) {
 		filterOnce(out, r.fork(), i)
 	}
 	filterSignal(out)
+	filterQuitParked(out)
 	for _, verdict := range []string{"keep", "drop", "replace"} {
 		filterRepeated(out, verdict)
 		for _, outcome := range []string{"ok", "fails", "release-fails"} {
@@ -1706,5 +1707,64 @@ func filterRepeated(out *scenOut, verdict string) {
 	if strings.Join(got, " , ") != strings.Join(want, " , ") {
 		out.fail(finding{Property: "C16", Class: "new", What: "the filter's verdicts were not obeyed message by message (the same message sent twice)", Input: desc,
 			Expected: strings.Join(want, " , "), Observed: strings.Join(got, " , ")})
+	}
+}
+
+// filterQuitParked: the event loop holds a QuitMsg (the filter is being consulted about it) while a
+// sender is parked in Send with a message the filter would replace. Whatever happens to that
+// message at shutdown - dropped with the program, or delivered - Update never receives anything
+// the filter did not pass.
+func filterQuitParked(out *scenOut) {
+	ctl := newRecCtl()
+	hold := make(chan struct{})
+	var holding int32
+	filter := func(name string, m tea.Msg) tea.Msg {
+		if u, ok := m.(userMsg); ok && u.Sender == 5 {
+			return userMsg{55, u.Seq}
+		}
+		if _, ok := m.(tea.QuitMsg); ok && atomic.CompareAndSwapInt32(&holding, 0, 1) {
+			<-hold
+		}
+		return m
+	}
+	run := startProgram(ctl, nil, tea.WithInput(nil), tea.WithoutSignalHandler(), loggingFilter(ctl, filter))
+	desc := "the filter replaces u5.* by u55.*; while it is consulted about a QuitMsg two senders park in Send with u5.1 and u5.2; then the filter returns"
+	run.p.Send(userMsg{5, 0})
+	waitFor(2*time.Second, func() bool { return ctl.log.has("update-exit", "u55.0") })
+	go run.p.Send(tea.Quit())
+	if !waitFor(2*time.Second, func() bool { return atomic.LoadInt32(&holding) == 1 }) {
+		close(hold)
+		run.p.Kill()
+		run.wait(3 * time.Second)
+		return
+	}
+	sent := make(chan struct{}, 2)
+	for k := 1; k <= 2; k++ {
+		go func(k int) { run.p.Send(userMsg{5, k}); sent <- struct{}{} }(k)
+	}
+	time.Sleep(60 * time.Millisecond) // both are parked in Send: the loop is busy in the filter
+	close(hold)
+	out.record("filter-quit-parked", desc)
+	if !run.wait(4 * time.Second) {
+		out.fail(finding{Property: "C04", Class: "new", What: "Run did not return after quit", Input: desc})
+		run.p.Kill()
+		run.wait(3 * time.Second)
+		return
+	}
+	for k := 0; k < 2; k++ {
+		select {
+		case <-sent:
+		case <-time.After(2 * time.Second):
+			out.fail(finding{Property: "C13", Class: "new", What: "a Send parked at termination never returned", Input: desc})
+		}
+	}
+	for _, u := range updatesOf(ctl.log.snapshot()) {
+		if strings.HasPrefix(u, "u5.") {
+			out.fail(finding{Property: "C16", Class: "new", What: "Update received a message the filter had replaced (a sender parked in Send while the program quit)", Input: desc,
+				Expected: "only what the filter passed: u55.*", Observed: u})
+		}
+	}
+	if got := errClass(run.err); got != "nil" {
+		out.fail(finding{Property: "C04", Class: "new", What: "wrong Run result", Input: desc, Expected: "nil", Observed: got})
 	}
 }
